@@ -82,7 +82,11 @@ RULE = (
     "the 4 pi of the normalised families); every documented argument combination (positional / keyword / None / explicit defaults, degree and "
     "size together) on the smallest grids of every method; refused calls (constructor and methods) inside the histories: no trace; integrate of "
     "complex / single / long double / integer values of the complex harmonics; the library's harmonics on shipped nodes with randomly "
-    "modulated weights, row by row against the oracle, above degree 150 in the thorough tier). "
+    "modulated weights, row by row against the oracle, above degree 150 in the thorough tier; "
+    "round 5: EVERY constructible grid through the library's own AngularGrid(...).integrate with one, two and three value arrays (1, Y_00, sectoral "
+    "and next-to-sectoral harmonics up to the advertised degree, orthonormality products, SciPy's (l, m) where affordable) against the sum over "
+    ".points / .weights and the exact integral; refilled / other-precision value arrays; plain grids of sizes at and next to block boundaries; "
+    "degree / size given in other number types). "
     "non-trivial = advertised degree >= 2"
 )
 TRUSTED_BASE = [
@@ -638,6 +642,12 @@ def rejects(**kw):
     except ValueError:
         return
     raise AssertionError(f'AngularGrid(**{{kw}}) did not raise ValueError')
+def maybe(m, d, s, **kw):   # class 23: a request in another number type is either refused or gives the grid of the integer it denotes
+    try:
+        g = AngularGrid(method=m, **kw)
+    except (ValueError, TypeError):
+        return
+    check(g, m, d, s, f'AngularGrid(method={{m!r}}, **{{kw}})')
 def attempt(f):          # a call that is expected to be refused (class 18): whatever it does, it must leave no trace
     try:
         f()
@@ -1091,6 +1101,18 @@ def _oracle_arguments(ctx: Ctx, ang):
                     label = f"AngularGrid({f}{meth})"
                     lines.append(f"check(a{n}, {m!r}, {d}, {s}, {label!r})")
                     n += 1
+        # class 23 (round 5): degree / size as integral floats, long double, single, half, small and unsigned NumPy integers, NumPy bool
+        for d in [smallest[0], ctx.rng.choice([k for k in tab if tab[k] <= 1500 and (m, k) not in BROKEN_FILES])]:
+            for arg, val in (("degree", d), ("size", tab[d])):
+                kinds = ["float({v})", "np.float64({v})", "np.longdouble({v})", "np.float32({v})", "np.int8({v})", "np.uint8({v})", "np.uint64({v})", "np.int64({v})"]
+                kinds += ["np.float16({v})"] if val < 2048 else []
+                for kd in kinds:
+                    if ("int8" in kd and val > 127) or ("uint8" in kd and val > 255):
+                        continue
+                    lines.append(f"maybe({m!r}, {d}, {tab[d]}, {arg}={kd.format(v=val)})")
+        d1, s1 = _resolve(tab, degree=1)
+        lines.append(f"maybe({m!r}, {d1}, {s1}, degree=np.bool_(True))")
+        lines.append(f"maybe({m!r}, {d1}, {s1}, degree=True)")
         if (m, d50) not in BROKEN_FILES:
             for f in (["AngularGrid()", "AngularGrid(cache=False)", "AngularGrid(50)", "AngularGrid(degree=50, size=None, cache=True, method='lebedev')"] if m == "lebedev"
                       else [f"AngularGrid(method={m!r})", f"AngularGrid(method={m!r}, cache=False)", f"AngularGrid(size=None, method={m!r})"]):
@@ -1162,6 +1184,205 @@ def _oracle_value_kinds(ctx: Ctx, ang):
                          snippet=KIND_SNIPPET.format(m=m, d=d, l=l, mm=mm, expr=expr, tol=tol, exact=repr(ex)))
 
 
+# --------------------------------------------------------------------------------------
+# round 5: the library's own route AngularGrid(...).integrate(values) on EVERY constructible grid (classes 21, 23, 25, 26)
+# --------------------------------------------------------------------------------------
+ROUTE_HEADER = """import math, warnings; warnings.filterwarnings('ignore')
+import numpy as np
+from scipy.special import sph_harm_y, gammaln
+from grid.angular import AngularGrid
+def harmonics(g):
+    x, y, z = g.points.T
+    pol, az = np.arccos(np.clip(z, -1, 1)), np.arctan2(y, x)
+    def sect(l, s):              # real sectoral harmonic R_(l, s l), s = +1 / -1, from the closed form: sqrt 2 K_l Re / Im (x + i y)^l
+        if l == 0:
+            return np.full(len(x), 1.0 / math.sqrt(4 * math.pi))
+        k = math.sqrt(2.0) * math.exp(0.5 * (math.log((2 * l + 1) / (4 * math.pi)) + gammaln(2 * l + 1) - 2 * (l * math.log(2.0) + gammaln(l + 1))))
+        e = (x + 1j * y) ** l
+        return k * (e.real if s > 0 else e.imag)
+    def nsect(l, s):             # R_(l, s (l-1)) = sqrt(2 l + 1) z R_(l-1, s (l-1)),  l >= 2
+        return math.sqrt(2 * l + 1) * z * sect(l - 1, s)
+    def real(l, m):              # any (l, m) from SciPy's complex harmonics
+        c = sph_harm_y(l, abs(m), pol, az)
+        return c.real if m == 0 else math.sqrt(2.0) * (-1) ** m * (c.real if m > 0 else c.imag)
+    one = np.ones(len(x))
+    return dict(sect=sect, nsect=nsect, real=real, one=one, x=x, y=y, z=z, np=np, math=math)
+"""
+ROUTE_SNIPPET = ROUTE_HEADER + """g = AngularGrid(degree={d}, method={m!r}, cache=False)
+ns = harmonics(g)
+v = eval({expr!r}, ns)
+got = g.integrate(*v)
+own = float(np.sum(g.weights * np.prod(v, axis=0)))                       # the quadrature sum over .points / .weights
+scale = float(np.sum(np.abs(g.weights * np.prod(v, axis=0))))
+assert abs(float(got) - own) <= 1e-12 * scale + 1e-14, f'{m}_{d}: integrate gives {{float(got)!r}}, sum_i w_i f(p_i) = {{own!r}}'
+exact = {exact!r}
+assert exact is None or abs(own - exact) <= 1e-9, f'{m}_{d}: sum_i w_i f(p_i) = {{own!r}}, exact {{exact!r}}'
+"""
+
+
+def _route_cases(ctx: Ctx, d, s, thorough):
+    """[(expr, exact)] - value tuples for g.integrate, as expressions over `harmonics(g)`; exact = the integral over the sphere
+    where it is known and the rule must reproduce it (total degree <= advertised degree), None = compare with the own sum only"""
+    S4 = math.sqrt(FOUR_PI)
+    cs = [("(one,)", FOUR_PI), ("(sect(0, 1),)", S4), ("(one, one)", FOUR_PI), ("(one, sect(0, 1), one)", S4)]
+    if d >= 1:
+        for sg in (1, -1):
+            cs.append((f"(sect({d}, {sg}),)", 0.0))
+        l = ctx.rng.randint(1, d)
+        cs.append((f"(sect({l}, {ctx.rng.choice([1, -1])}),)", 0.0))
+    if d >= 2:
+        l = ctx.rng.randint(2, d)
+        cs.append((f"(nsect({l}, {ctx.rng.choice([1, -1])}),)", 0.0))
+        a = ctx.rng.randint(1, d // 2)
+        sg = ctx.rng.choice([1, -1])
+        cs.append((f"(sect({a}, {sg}), sect({a}, {sg}))", 1.0))                      # orthonormality, total degree 2a <= d
+        cs.append((f"(sect({a}, 1), sect({a}, -1))", 0.0))
+        cs.append((f"(one, sect({a}, {sg}), sect({a}, {sg}))", 1.0))
+        b = ctx.rng.randint(0, d - a)
+        cs.append((f"(sect({a}, {sg}), sect({b}, {-sg}), sect(0, 1))", 0.0 if (a, sg) != (b, -sg) and not (a == b == 0) else None))
+        cs.append((f"(sect({a}, 1), nsect({max(2, b)}, -1), sect({ctx.rng.randint(0, d)}, 1))", None))       # three arrays, any degree: own sum only
+    # general (l, m) through SciPy where the file is small enough for the tier
+    budget = (5e7 if thorough else 3e5)
+    if s * (d + 1) ** 2 <= (3e6 if thorough else 4e4):
+        cs += [(f"(real({l}, {m}),)", S4 if l == 0 else 0.0) for l in range(d + 1) for m in range(-l, l + 1)]
+    elif s * d <= budget:
+        for _ in range(4 if thorough else 3):
+            l = ctx.rng.randint(1, d)
+            cs.append((f"(real({l}, {ctx.rng.randint(-l, l)}),)", 0.0))
+        l1 = ctx.rng.randint(0, d // 2)
+        m1 = ctx.rng.randint(-l1, l1)
+        cs.append((f"(real({l1}, {m1}), real({l1}, {m1}))", 1.0))
+    return cs
+
+
+def _oracle_integrate_route(ctx: Ctx, ang):
+    """Round 5: what a user observes is AngularGrid(...).integrate(values).  EVERY constructible grid goes through that route, with
+    one, two and three value arrays: the constant 1, Y_00, sectoral harmonics at the advertised degree and at seeded degrees
+    (closed form, any degree at the cost of one complex power), next-to-sectoral ones, orthonormality products of total degree
+    <= the advertised degree, general (l, m) from SciPy where affordable (all (l, m) for the small files; thorough tier: more);
+    each answer against the sum over .points / .weights formed here and against the exact integral.  Also: the value arrays are
+    unchanged afterwards, a second call with the same array objects gives the same number, the same array object rescaled in
+    place gives the rescaled number (class 25), integer / single / long double copies of the values give the same number to
+    the precision of the narrower type (class 23), and the grid built just before - still alive - integrates as it did before
+    the next one was built (class 26)."""
+    ns0 = {}
+    exec(ROUTE_HEADER, ns0)
+    files = all_files(ang)
+    # own closed forms against SciPy on a few points (the sign convention does not enter the integrals: absolute values)
+    pts = ctx.np_rng.normal(size=(40, 3))
+    pts /= np.linalg.norm(pts, axis=1)[:, None]
+    from types import SimpleNamespace
+    hs = ns0["harmonics"](SimpleNamespace(points=pts))
+    for l in (1, 2, 3, 7, 50, 131, 200, 325):
+        for sg in (1, -1):
+            ctx.count(["closed-form", l, sg], nontrivial=True, tag="integrate-route:closed-form")
+            if not (np.allclose(np.abs(hs["sect"](l, sg)), np.abs(hs["real"](l, sg * l)), rtol=1e-9, atol=1e-13)
+                    and (l < 2 or np.allclose(np.abs(hs["nsect"](l, sg)), np.abs(hs["real"](l, sg * (l - 1))), rtol=1e-9, atol=1e-13))):
+                ctx.fail("corr", "integrate-route:closed-form", f"the closed form of the sectoral / next-to-sectoral real harmonic of degree {l} used by the harness differs from SciPy's")
+    prev = None
+    t_start = time.time()
+    for m, d, s in files:
+        name = f"{m}_{d}_{s}"
+        g = load(ang, m, d)
+        hs = ns0["harmonics"](g)
+        ctx.count(["integrate-route", m, d, s], nontrivial=d >= 2, tag="integrate-route:" + m)
+        ncalls = 0
+        for expr, exact in _route_cases(ctx, d, s, ctx.thorough):
+            v = eval(expr, hs)
+            keep = [a.copy() for a in v]
+            prod = np.prod(v, axis=0)
+            own, scale = float(np.sum(g.weights * prod)), float(np.sum(np.abs(g.weights * prod)))
+            try:
+                got = float(g.integrate(*v))
+                again = float(g.integrate(*v))
+            except Exception as e:
+                ctx.fail("oracle", f"angular:{name}:integrate", f"{name}: integrate(*{expr}) raises {type(e).__name__}: {str(e)[:200]}",
+                         witness={"method": m, "degree": d, "size": s, "values": expr}, snippet=ROUTE_SNIPPET.format(m=m, d=d, expr=expr, exact=exact))
+                break
+            ncalls += 2
+            bad = None
+            if not abs(got - own) <= 1e-12 * scale + 1e-14:
+                bad = f"integrate(*{expr}) = {got!r}, but sum_i w_i f(p_i) over its own .points / .weights = {own!r}"
+            elif again != got or any(not np.array_equal(a, b) for a, b in zip(v, keep)):
+                bad = f"integrate(*{expr}): a second call with the same arrays gives {again!r} after {got!r}" if again != got else f"integrate(*{expr}) changed its argument"
+            if bad:
+                ctx.fail("oracle", f"angular:{name}:integrate", f"{name} ({s} points): {bad}", witness={"method": m, "degree": d, "size": s, "values": expr, "integrate": got, "own_sum": own},
+                         snippet=ROUTE_SNIPPET.format(m=m, d=d, expr=expr, exact=None))
+                break
+            if exact is not None and not abs(own - exact) <= THRESH:
+                # the data, not the route: the key of the file (the two listed Ahrens-Beylkin files are matched by it)
+                ctx.fail("oracle", f"angular:{name}", f"{name}: not exact to its advertised degree {d}: integrate(*{expr}) = {got!r}, exact {exact!r}",
+                         witness={"method": m, "degree": d, "size": s, "values": expr, "integrate": got, "exact": exact},
+                         snippet=ROUTE_SNIPPET.format(m=m, d=d, expr=expr, exact=exact))
+                break
+        else:
+            # classes 23 / 25 on one value array of this grid, class 26 on the previous grid
+            l = ctx.rng.randint(0, d)
+            base = hs["sect"](l, 1) * ctx.np_rng.uniform(0.5, 2.0, size=g.size)       # modulated: the sum is not ~0
+            ref = float(np.sum(g.weights * base))
+            sc = float(np.sum(np.abs(g.weights * base)))
+            buf = base.copy()
+            r1 = float(g.integrate(buf))
+            buf *= 3.0
+            r2 = float(g.integrate(buf))
+            buf[:] = base[::-1]
+            r3 = float(g.integrate(buf))
+            probs = []
+            if not (abs(r1 - ref) <= 1e-12 * sc + 1e-14 and abs(r2 - 3.0 * ref) <= 4e-12 * sc + 1e-14 and abs(r3 - float(np.sum(g.weights * base[::-1]))) <= 1e-12 * sc + 1e-14):
+                probs.append(f"one array object refilled in place between three calls: {r1!r}, {r2!r}, {r3!r}; expected {ref!r}, {3 * ref!r}, {float(np.sum(g.weights * base[::-1]))!r}")
+            for kind, tol in (("longdouble", 1e-12), ("float32", 3e-6), ("float16", 3e-2)):
+                arr = base.astype(kind)
+                k0 = arr.copy()
+                try:
+                    r = float(g.integrate(arr))
+                except Exception as e:
+                    probs.append(f"{kind} values: raises {type(e).__name__}: {str(e)[:120]}")
+                    continue
+                want = float(np.sum(g.weights * arr.astype(float)))
+                if not abs(r - want) <= tol * sc + 1e-14 or not np.array_equal(arr, k0) or float(g.integrate(arr)) != r:
+                    probs.append(f"{kind} values: integrate {r!r}, float64 sum of the same values {want!r}")
+            if prev is not None:
+                pg, pone, pname = prev
+                if float(pg.integrate(np.ones(pg.size))) != pone:
+                    probs.append(f"the grid {pname} built before this one now integrates 1 to {float(pg.integrate(np.ones(pg.size)))!r}, before {pone!r}")
+            ncalls += 12
+            if probs:
+                ctx.fail("oracle", f"angular:{name}:integrate", f"{name}: integrate of f = R_({l},{l}) x random factors: " + "; ".join(probs)[:600],
+                         witness={"method": m, "degree": d, "size": s, "l": l},
+                         snippet=f"import warnings; warnings.filterwarnings('ignore')\nimport numpy as np\nfrom grid.angular import AngularGrid\n"
+                                 f"g = AngularGrid(degree={d}, method={m!r}, cache=False)\nbuf = np.linspace(0.5, 2.0, g.size)\nw = g.weights.copy()\n"
+                                 f"r1 = float(g.integrate(buf)); buf *= 3.0; r2 = float(g.integrate(buf))\n"
+                                 f"r3 = float(g.integrate(buf.astype(np.float32))); r4 = float(g.integrate(buf.astype(np.longdouble)))\n"
+                                 f"own = float(np.sum(w * np.linspace(0.5, 2.0, g.size)))\n"
+                                 f"assert abs(r1 - own) <= 1e-11 * own and abs(r2 - 3 * own) <= 1e-11 * own and abs(r3 - 3 * own) <= 1e-5 * own and abs(r4 - 3 * own) <= 1e-11 * own, (r1, r2, r3, r4, own)\n")
+            prev = (g, float(g.integrate(np.ones(g.size))), name)
+        ctx.tagc("integrate-route:calls", ncalls)
+    ctx.extra["integrate_route_wall_s"] = round(time.time() - t_start, 1)
+    # class 21: the same route on plain grids of sizes at and next to block boundaries (synthetic points on the sphere)
+    base_grid = importlib.import_module("grid.basegrid")
+    sizes = [1, 2, 1023, 1024, 1025, 2047, 2048, 2049, 3072, 4096, 4097, 20000, 20001, 31234, 65536, 65537] + ([2 ** 19, 2 ** 19 + 1, 2 ** 20 + 7] if ctx.thorough else [])
+    for n in sizes:
+        P = ctx.np_rng.normal(size=(n, 3))
+        P /= np.linalg.norm(P, axis=1)[:, None]
+        W = ctx.np_rng.uniform(0.5, 1.5, size=n)
+        gg = base_grid.Grid(P, W)
+        A, B, C = P[:, 0] + 2.0, P[:, 1] * P[:, 2] + 1.5, np.cos(3 * P[:, 2]) + 2.0
+        for k, v in ((1, (A,)), (2, (A, B)), (3, (A, B, C))):
+            ctx.count(["block-sizes", n, k], nontrivial=True, tag="integrate-route:block-sizes")
+            own = float(np.sum((W * np.prod(v, axis=0)).astype(np.longdouble)))
+            half = n // 2            # additivity over a split of the same input
+            parts = (float(base_grid.Grid(P[:half], W[:half]).integrate(*(a[:half] for a in v))) if half else 0.0) + \
+                float(base_grid.Grid(P[half:], W[half:]).integrate(*(a[half:] for a in v)))
+            got = float(gg.integrate(*v))
+            if not abs(got - own) <= 1e-12 * abs(own) or not abs(got - parts) <= 1e-12 * abs(own):
+                ctx.fail("oracle", "basegrid.Grid.integrate:block-sizes", f"Grid of {n} points: integrate of {k} positive arrays = {got!r}; sum_i w_i f(p_i) = {own!r}; "
+                         f"sum over the two halves {parts!r}", witness={"size": n, "arrays": k, "integrate": got, "own_sum": own},
+                         snippet=f"import numpy as np\nfrom grid.basegrid import Grid\nn = {n}\nw = np.linspace(0.5, 1.5, n); f = np.linspace(1.0, 2.0, n)\n"
+                                 f"got = Grid(np.zeros((n, 3)), w).integrate(*([f] * {k}))\nown = float(np.sum(w * f ** {k}))\n"
+                                 f"assert abs(got - own) <= 1e-11 * own, (got, own)\n")
+                break
+
+
 HARM_SNIPPET = """import warnings; warnings.filterwarnings('ignore')
 import numpy as np
 from scipy.special import sph_harm_y
@@ -1231,6 +1452,7 @@ def oracle(ctx: Ctx, budget: str):
         ("arguments", lambda: _oracle_arguments(ctx, ang)),
         ("fresh-process", lambda: _oracle_fresh_process(ctx, ang)),
         ("value-kinds", lambda: _oracle_value_kinds(ctx, ang)),
+        ("integrate-route", lambda: _oracle_integrate_route(ctx, ang)),
         # consults the translator's selection
         ("carried-exact", lambda: _oracle_carried_exact(ctx, ang)),
         # needs the driver
